@@ -392,7 +392,6 @@ lp_id_t CountRegions(struct topology *topology)
 lp_id_t CountDirections(lp_id_t from, struct topology *topology)
 {
 	lp_id_t neighbors;
-	uint32_t x, y;
 
 	assert(topology);
 
@@ -403,15 +402,10 @@ lp_id_t CountDirections(lp_id_t from, struct topology *topology)
 
 		case TOPOLOGY_HEXAGON:
 			assert(topology->geometry == TOPOLOGY_HEXAGON);
-			neighbors = 6;
-			y = from / topology->width;
-			x = from - y * topology->width;
-			if(y == 0 || y == topology->height - 1)
-				neighbors -= x == 0 ? 1 : 2;
-			if(x == 0)
-				neighbors -= 3 - 2 * (y & 1U);
-			if(x == topology->width - 1)
-				neighbors -= 3 - 2 * (1 - (y & 1U));
+			neighbors = 0;
+			for(unsigned i = 0; i < DIRECTION_RANDOM; i++)
+				if(get_neighbor_hexagon(from, topology, i) != INVALID_DIRECTION)
+					neighbors++;
 			return neighbors;
 
 		case TOPOLOGY_TORUS:
@@ -420,13 +414,10 @@ lp_id_t CountDirections(lp_id_t from, struct topology *topology)
 
 		case TOPOLOGY_SQUARE:
 			assert(topology->geometry == TOPOLOGY_SQUARE);
-			neighbors = 4;
-			y = from / topology->width;
-			x = from - y * topology->width;
-			if(x == 0 || x == topology->width - 1)
-				neighbors--;
-			if(y == 0 || y == topology->height - 1)
-				neighbors--;
+			neighbors = 0;
+			for(unsigned i = 0; i < DIRECTION_NE; i++)
+				if(get_neighbor_square(from, topology, i) != INVALID_DIRECTION)
+					neighbors++;
 			return neighbors;
 
 		case TOPOLOGY_BIDRING:
